@@ -49,6 +49,37 @@ FORBIDDEN = re.compile(
     r'Unset\s+Universe\s+Checking)\b')
 
 
+class Hang(Exception):
+    """The implementation did not return within the per-call time limit."""
+
+
+class time_limit:
+    """`with time_limit(10): impl_call()` raises Hang when the call does not return in time
+    (main thread of the process only; based on ITIMER_REAL, so it interrupts pure-Python loops)."""
+
+    def __init__(self, seconds):
+        self.seconds = seconds
+
+    def _fire(self, signum, frame):
+        raise Hang('no result after %s s' % self.seconds)
+
+    def __enter__(self):
+        import signal
+        import threading
+        self.active = threading.current_thread() is threading.main_thread()
+        if self.active:
+            self.old = signal.signal(signal.SIGALRM, self._fire)
+            signal.setitimer(signal.ITIMER_REAL, self.seconds)
+        return self
+
+    def __exit__(self, *a):
+        if self.active:
+            import signal
+            signal.setitimer(signal.ITIMER_REAL, 0)
+            signal.signal(signal.SIGALRM, self.old)
+        return False
+
+
 def sh(cmd, timeout=None, cwd=None, env=None, input=None):
     p = subprocess.run(cmd, shell=isinstance(cmd, str), cwd=cwd, env=env, input=input,
                        stdout=subprocess.PIPE, stderr=subprocess.STDOUT, timeout=timeout, text=True)
@@ -401,7 +432,32 @@ class Ctx:
                 else:
                     self.cov['discharged'] += 1
             self.cov['theorems'].append(name)
+        if self.tier == 'thorough' and os.environ.get('VERIF_NO_COQCHK') != '1':
+            ok = self.coqchk(props_file) and ok
         return ok
+
+    def coqchk(self, props_file):
+        """Thorough tier: re-check the compiled property file and everything it depends on with the
+        independent checker; its axiom summary must be empty or a subset of the whitelisted stdlib axioms."""
+        mod = 'Emmet.' + props_file[:-2].replace('/', '.')
+        cmd = ['timeout', '1500', 'coqchk', '-silent', '-o', '-Q', COQ, 'Emmet', mod]
+        self.cov['obligations'] += 1
+        rc, out = sh(cmd, cwd=COQ, timeout=1560)
+        m = re.search(r'\* Axioms:(.*?)\n\s*\n\* Constants', out, re.S)
+        axioms = []
+        if m:
+            axioms = [a.strip() for a in m.group(1).split('\n') if a.strip() and a.strip() != '<none>']
+        unsafe = re.findall(r'\* (Constants/Inductives relying on type-in-type|Constants/Inductives relying on unsafe \(co\)fixpoints|'
+                            r'Inductives whose positivity is assumed): (?!<none>)(\S.*)', out)
+        bad = [a for a in axioms if a not in ALLOWED_AXIOMS and a.split('.')[-1] not in ALLOWED_AXIOMS
+               and not any(a.endswith(x) for x in ALLOWED_AXIOMS)]
+        self.cov.setdefault('coqchk', {})[mod] = {'rc': rc, 'axioms': axioms or ['<none>']}
+        if rc != 0 or m is None or bad or unsafe:
+            self.broken.append({'kind': 'coqchk', 'file': props_file, 'axioms': bad, 'unsafe': unsafe, 'log_tail': out[-1200:]})
+            self.say('COQCHK FAILED %s\n%s' % (mod, out[-1500:]))
+            return False
+        self.cov['discharged'] += 1
+        return True
 
     def model(self, name):
         exe, err = build_model(name)
@@ -464,6 +520,8 @@ class Ctx:
                 self.unproved(b.get('kind', 'obligation') + ':' + str(b.get('file') or b.get('targets') or b.get('theorem') or b.get('model') or ''), json.dumps(b)[:1500])
         lines = []
         seen = set()
+        # concrete failing inputs first, smallest first (cheap minimisation by selection)
+        self.violations.sort(key=lambda v: (v['no_input'], len(json.dumps(v['replay'], default=str))))
         for i, v in enumerate(self.violations):
             if v['key'] in seen:
                 continue
